@@ -160,7 +160,23 @@ func inject(k *h.Case, g *spec.Gen, prog *spec.Program, baseOut string) *injecti
 		}
 		st := &spec.Continue{ID: prog.NewID()}
 		at := r.IntN(safeLen(bc.b) + 1)
-		insertStmt(bc.b, at, st, &spec.CmdStmt{Cmd: g.Cmd()})
+		// what follows the continue: any kind of statement
+		var follower spec.Stmt
+		switch r.IntN(6) {
+		case 0:
+			follower = &spec.Label{ID: prog.NewID(), Name: g.Name("Lbl")}
+		case 1:
+			follower = &spec.Label{ID: prog.NewID(), Name: g.Name("Lbl"), Scope: 1 + r.IntN(2)}
+		case 2:
+			follower = &spec.Break{ID: prog.NewID()}
+		case 3:
+			follower = &spec.If{ID: prog.NewID(), Arms: []*spec.Arm{{Cond: g.LeafCond(), Body: &spec.Block{ID: prog.NewID()}}}}
+		case 4:
+			follower = &spec.CmdStmt{Cmd: &spec.Cmd{ID: prog.NewID(), Name: g.Name("cmd")}}
+		default:
+			follower = &spec.CmdStmt{Cmd: g.Cmd()}
+		}
+		insertStmt(bc.b, at, st, follower)
 		return &injection{kind, []int{st.ID}}
 	case "duplicate-case", "duplicate-case-via-const", "second-default":
 		sws := allSwitches(prog)
@@ -168,6 +184,10 @@ func inject(k *h.Case, g *spec.Gen, prog *spec.Program, baseOut string) *injecti
 			return nil
 		}
 		sw := sws[r.IntN(len(sws))]
+		// a case cannot be appended when the last body ends in `continue` (it must stay before the `}`)
+		if lc := sw.Cases[len(sw.Cases)-1]; safeLen(lc.Body) != len(lc.Body.Stmts) {
+			return nil
+		}
 		nc := &spec.Case{ID: prog.NewID(), Body: &spec.Block{ID: prog.NewID()}}
 		if r.IntN(2) == 0 {
 			nc.Body.Stmts = []spec.Stmt{&spec.CmdStmt{Cmd: g.Cmd()}}
